@@ -370,27 +370,46 @@ def check(ctx):
     if bab is not None:
         env["_AB"] = bab["_AB"]
         san, ban = first("_B = _B.anti_join(_AB, '_bid_')", env)
+        if ban is None:
+            # the remaining right rows may get a name of their own
+            san, ban = first("_R = _B.anti_join(_AB, '_bid_')", env)
+            if ban is not None:
+                env["_BR"] = ban["_R"]
         anti = [c for _, c in calls_in(fj) if isinstance(c.func, ast.Attribute) and c.func.attr == "anti_join"]
         ctx.ob("SIB-6", fj, text(anti[0]) if anti else "b = b.anti_join(ab, '_bid_')", anti[0] if anti else fj.node, ban is not None and len(anti) == 1,
                "right rows still to be added are those whose synthetic row id does not occur in the left-join result" if ban is not None else
                "unused right rows are not determined by the synthetic row id against the left-join result: left_join consumes only the "
                "FIRST right row per key, so further right rows sharing a matched key are neither joined nor appended -- they vanish",
                clause="full_join contains every right row at least once")
-    rev = [c for _, c in calls_in(fj) if isinstance(c.func, ast.Attribute) and c.func.attr == "left_join" and text(c.func.value) == text(env["_B"])]
+    BREM = env.get("_BR", env["_B"])
+    rev = [c for _, c in calls_in(fj) if isinstance(c.func, ast.Attribute) and c.func.attr == "left_join" and text(c.func.value) == text(BREM)]
     for c in rev:
         star = [a for a in c.args if isinstance(a, ast.Starred)]
         okr = bool(c.args) and text(c.args[0]) == text(env["_A"]) and bool(star)
         swapped = False
+        # where the reversed by-list is built: in full_join itself, or in a helper given `by`
+        OWNER, LISTNAME, BYN, AT = fj, None, BY, c
         if okr and isinstance(star[0].value, ast.Name) and star[0].value.id != BY:
+            LISTNAME = star[0].value.id
+        elif okr and isinstance(star[0].value, ast.Call) and len(star[0].value.args) == 1 and norm(star[0].value.args[0]) == BY:
+            r_ = repo.resolve_call(fj, star[0].value)
+            if r_[0] == "pkg" and len(r_[1]) == 1 and len(r_[1][0].params) == 1:
+                OWNER = r_[1][0]
+                BYN = OWNER.params[0]
+                rets_h = [n for n in body_nodes(OWNER.node) if isinstance(n, ast.Return) and isinstance(n.value, ast.Name)]
+                if len(rets_h) == 1:
+                    LISTNAME, AT = rets_h[0].value.id, rets_h[0]
+        if LISTNAME is not None:
             from ..forms import contributions
-            cs = contributions(fj, star[0].value.id, c)
+            fj_, BY_ = OWNER, BYN
+            cs = contributions(fj_, LISTNAME, AT)
             srcs = {norm(x["iter"]) for x in cs if x["iter"] is not None}
             # a contributed local name stands for whatever reaches it (item = tuple(reversed(item)) under an if)
             cs2 = []
             for x in cs:
                 v = x["value"]
                 if isinstance(v, ast.Name):
-                    ds = defs_reaching(fj, v.id, x["node"])
+                    ds = defs_reaching(fj_, v.id, x["node"])
                     if ds and all(d.kind in ("assign", "for") for d in ds):
                         for d in ds:
                             y = dict(x)
@@ -401,7 +420,7 @@ def check(ctx):
             cs = cs2
             vals = [norm(x["value"]) for x in cs if x["value"] is not None]
             # every element comes from iterating by; tuple elements are reversed, plain names kept
-            if cs and srcs == {BY} and any("reversed(" in v or "[::-1]" in v for v in vals) \
+            if cs and srcs == {BY_} and any("reversed(" in v or "[::-1]" in v for v in vals) \
                     and all(("reversed(" in v or "[::-1]" in v) or v == norm(x["target"]) or " if " in v for v, x in zip(vals, [y for y in cs if y["value"] is not None])):
                 swapped = True
             # the swapped pairs are indexed again (x[0] / x[1] in _split_join_by): they must be sequences, not iterators
@@ -424,7 +443,7 @@ def check(ctx):
                clause="key columns may be named differently on the two sides")
     # the shortcut that skips the reverse part is taken only when no right row is left over
     all_rets = [n for n in body_nodes(fj.node) if isinstance(n, ast.Return)]
-    B_ = text(env["_B"])
+    B_ = text(BREM)
     EMPTY = {("T", f"{B_}.nrow == 0"), ("T", f"0 == {B_}.nrow"), ("T", f"{B_}.nrow < 1"), ("F", f"{B_}.nrow"), ("F", f"{B_}.nrow > 0"),
              ("F", f"{B_}.nrow >= 1"), ("F", f"{B_}.nrow != 0"), ("T", f"{B_}.nrow <= 0")}
     ba_names = set()
